@@ -173,6 +173,9 @@ class Scenario:
         self._sensor_store = {}
         self._estimate_store = {}
 
+        # Epochs stepped through since the last save, which rows not yet saved may refer to
+        self._unsaved_epochs: dict[str, float] = {}
+
         # Save initial states to database
         self.saveDatabaseOutput()
 
@@ -216,22 +219,30 @@ class Scenario:
             )
             raise ValueError(rounded_delta)
 
+    def _insertMissingEpochs(self) -> None:
+        """Make sure every epoch stepped through since the last save exists in the output database.
+
+        Rows collected between two output steps (observations, missed observations) refer to the epoch
+        at which they were produced, which may lie beyond the epochs that the clock inserted up front.
+        """
+        self._unsaved_epochs[
+            self.clock.datetime_epoch.isoformat(timespec="microseconds")
+        ] = self.clock.julian_date_epoch
+        for timestamp_iso, julian_date in self._unsaved_epochs.items():
+            if not self.database.getData(
+                Query(Epoch).filter(Epoch.timestampISO == timestamp_iso),
+                multi=False,
+            ):
+                self.database.insertData(
+                    Epoch(julian_date=julian_date, timestampISO=timestamp_iso),
+                )
+        self._unsaved_epochs = {}
+
     def saveDatabaseOutput(self) -> None:  # noqa: C901
         """Save Truth, Estimate, and Observation data to the output database."""
-        # Grab `TruthEphemeris` for targets & sensors
-        if not self.database.getData(
-            Query(Epoch).filter(
-                Epoch.timestampISO == self.clock.datetime_epoch.isoformat(timespec="microseconds"),
-            ),
-            multi=False,
-        ):
-            self.database.insertData(
-                Epoch(
-                    julian_date=self.clock.julian_date_epoch,
-                    timestampISO=self.clock.datetime_epoch.isoformat(timespec="microseconds"),
-                ),
-            )
+        self._insertMissingEpochs()
 
+        # Grab `TruthEphemeris` for targets & sensors
         output_data = [tgt.getCurrentEphemeris() for tgt in self.target_agents.values()]
         output_data.extend(sensor.getCurrentEphemeris() for sensor in self.sensor_agents.values())
 
@@ -315,6 +326,10 @@ class Scenario:
         self.clock.ticToc()
         # Update Julian date properly
         self.current_julian_date = self.clock.julian_date_epoch
+        # Rows produced during this step refer to its epoch, even if it is not an output step
+        self._unsaved_epochs[
+            self.clock.datetime_epoch.isoformat(timespec="microseconds")
+        ] = self.clock.julian_date_epoch
 
         # Propagate truth model & predict estimate forward in time.
         for target_agent in self.target_agents.values():
